@@ -148,7 +148,7 @@ def run(ctx: Ctx) -> int:
     ctx.cov["patterns_outside_fragment"] = sum(1 for _, res, _ in rx if res[0] == "unk")
     ctx.sample({"pattern": rx[len(rx) // 2][0], "texts": RX_TEXTS, "expected": rx[len(rx) // 2][1]})
     rng = random.Random(ctx.seed)
-    progs = [(rand_prog(rng), []) for _ in range(1500 if q else 40000)]
+    progs = [(rand_prog(rng), []) for _ in range(1500 if q else 100000)]
     # random patterns and texts, longer than the enumeration reaches (judged by Trace_Eval through CelEval's MatchFn)
     ralpha = "ab.*+?|()[]^$\\-"
     for _ in range(400 if q else 6000):
